@@ -9,7 +9,7 @@
 From Coq Require Import ZArith List Bool Lia ZifyBool.
 From V Require Import base.Cal gen.RrTables rr.RRBase rr.RRNorm rr.RRMasks rr.RRIter rr.RRSpec
   rr.RRTablesThm rr.RRWeekCal rr.RRNwdThm rr.RRFilterThm rr.RRWeekDefs rr.RRWeekThm rr.RRWeekFinal
-  rr.RRWeekTop.
+  rr.RRWeekTop rr.RREasterThm rr.RRNwdCal.
 Import ListNotations.
 Ltac Zify.zify_post_hook ::= Z.to_euclidean_division_equations.
 Open Scope Z_scope.
@@ -203,66 +203,27 @@ Qed.
 Definition plain_only (r : raw) : bool :=
   forallb (fun wn : Z * Z => snd wn =? 0) (opt_list (r_byweekday r)).
 
-(* core: the two mask-driven clauses enter as hypotheses (discharged by the corollaries below) *)
-Definition weekno_lambda (r : raw) (o : Z) : Z -> bool :=
-  fun x => let '(wy, w) := week_of (r_wkst r) o in (x =? w) || (x =? w - weeks_in (r_wkst r) wy - 1).
-Definition easter_lambda (y o : Z) : Z -> bool := fun x => o =? easter_ord_spec y + x.
+Definition weekday_lambda (r : raw) (y i : Z) : Z * Z -> bool :=
+  fun wn => let '(w, n) := wn in
+    (w =? weekday_of_ord (jan1 y + i)) &&
+    (if (n =? 0) || (MONTHLY <? r_freq r) then true
+     else if (r_freq r =? MONTHLY) || negb (is_none (r_bymonth r))
+          then nth_in (mday_at y i) (dim y (month_at y i)) n
+          else nth_in (i + 1) (year_len y) n).
 
-Lemma day_filter_core : forall r rl ii y i,
+(* plain BYDAY: the weekday clause of the filter = the specification's BYDAY predicate *)
+Lemma weekday_plain_clause_ok r rl ii y i :
   normalize r = Ok rl -> spec_wf r = true -> plain_only r = true ->
-  ii_for ii y -> nwdaymask ii = None -> 1 <= y <= 9999 -> 0 <= i < year_len y ->
-  cl_weekno rl ii i = Ok (negb (in_opt (r_byweekno r) (weekno_lambda r (jan1 y + i)))) ->
-  cl_easter rl ii i = Ok (negb (in_opt (r_byeaster r) (easter_lambda y (jan1 y + i)))) ->
-  day_rejected rl ii i = Ok (negb (day_ok r (jan1 y + i))).
+  ii_for ii y -> nwdaymask ii = None -> 0 <= i < year_len y ->
+  cl_weekday rl ii i = Ok (negb (in_opt (eff_byweekday r) (weekday_lambda r y i))).
 Proof.
-  intros r rl ii y i HN HW Hp F Hnw Hy Hi HCW HCE.
-  destruct (normalize_fields r rl HN) as (Nm & Nyd & Nmd & Nnmd & Nwn & Nea & Nwd).
-  (* unpack the domain predicate *)
+  intros HN HW Hp F Hnw Hi.
+  destruct (normalize_fields r rl HN) as (_ & _ & _ & _ & _ & _ & Nwd).
   unfold spec_wf in HW.
   repeat match type of HW with _ && _ = true =>
     let H := fresh "W" in apply andb_true_iff in HW; destruct HW as [HW H] end.
-  (* facts about the date at index i *)
-  destruct (ymd_at y i Hi) as [EY EYD].
-  pose proof (month_of_yday_spec y (i + 1) ltac:(lia)) as MS. cbv zeta in MS.
-  fold (month_at y i) in MS. destruct MS as [MS1 MS2].
-  pose proof (dbm_succ y (month_at y i) MS1) as DS.
-  assert (Dd : 1 <= mday_at y i <= dim y (month_at y i)) by (unfold mday_at; lia).
-  (* model side: the six clauses *)
-  unfold day_rejected.
-  rewrite (cl_month_correct rl ii y F i Hi), (cl_monthday_correct rl ii y F i Hi),
-          (cl_yearday_correct rl ii y F i Hi), (cl_weekday_plain_correct rl ii y F i Hi Hnw).
-  rewrite HCW, HCE.
-  (* specification side *)
-  unfold day_ok. rewrite EY, EYD.
-  fold (weekno_lambda r (jan1 y + i)). fold (easter_lambda y (jan1 y + i)).
-  (* BYMONTH *)
-  assert (NEm : ne_opt (eff_bymonth r) = true).
-  { unfold eff_bymonth. destruct (r_bymonth r) as [l|]; [assumption|].
-    destruct (no_day_part r && (r_freq r =? YEARLY)); reflexivity. }
-  rewrite Nm, (month_clause (eff_bymonth r) (month_at y i) NEm).
-  (* BYMONTHDAY *)
-  assert (Vd : 1 <= r_d r).
-  { match goal with H : valid_ymd _ _ _ = true |- _ => unfold valid_ymd in H end. lia. }
-  assert (NEd : ne_opt (eff_bymonthday r) = true /\ all_opt (eff_bymonthday r) (fun x => negb (x =? 0)) = true).
-  { unfold eff_bymonthday. destruct (r_bymonthday r) as [l|]; [split; assumption|].
-    destruct (no_day_part r && ((r_freq r =? YEARLY) || (r_freq r =? MONTHLY))); [|split; reflexivity].
-    split; [reflexivity|]. cbn [all_opt forallb]. rewrite andb_true_r. apply negb_true_iff. lia. }
-  destruct NEd as [NEd Zd].
-  rewrite Nmd, Nnmd.
-  rewrite (monthday_clause (eff_bymonthday r) (mday_at y i) (mday_at y i - dim y (month_at y i) - 1)
-             NEd Zd ltac:(lia) ltac:(lia)).
-  (* BYYEARDAY *)
-  rewrite Nyd. rewrite (yearday_clause (r_byyearday r) (i + 1) (i + 1 - year_len y - 1)) by assumption.
-  (* BYDAY (plain) *)
-  assert (Cw : truthy (byweekday rl) &&
-               negb (memZ (weekday_of_ord (jan1 y + i)) (opt_list (byweekday rl))) =
-               negb (in_opt (eff_byweekday r) (fun wn => let '(w, n) := wn in
-                  (w =? weekday_of_ord (jan1 y + i)) &&
-                  (if (n =? 0) || (MONTHLY <? r_freq r) then true
-                   else if (r_freq r =? MONTHLY) || negb (is_none (r_bymonth r))
-                        then nth_in (mday_at y i) (dim y (month_at y i)) n
-                        else nth_in (i + 1) (year_len y) n)))).
-  { assert (NEw : ne_opt (eff_byweekday r) = true /\
+  rewrite (cl_weekday_plain_correct rl ii y F i Hi Hnw). f_equal. unfold weekday_lambda.
+  assert (NEw : ne_opt (eff_byweekday r) = true /\
                   forallb (fun wn : Z * Z => snd wn =? 0) (opt_list (eff_byweekday r)) = true).
     { unfold eff_byweekday, plain_only in *. destruct (r_byweekday r) as [l|]; [split; assumption|].
       destruct (no_day_part r && (r_freq r =? WEEKLY)); split; reflexivity. }
@@ -283,8 +244,61 @@ Proof.
     rewrite TT. cbn [andb]. rewrite memZ_sort_set. f_equal. rewrite <- existsb_fst.
     clear -Pl. induction (h :: t) as [|[w n] t' IH]; [reflexivity|].
     cbn [forallb snd] in Pl. apply andb_true_iff in Pl. destruct Pl as [Pn Pt].
-    cbn [existsb fst]. rewrite (IH Pt). rewrite Pn. cbn [orb]. rewrite andb_true_r. reflexivity. }
-  rewrite Cw.
+    cbn [existsb fst]. rewrite (IH Pt). rewrite Pn. cbn [orb]. rewrite andb_true_r. reflexivity.
+Qed.
+
+(* core: the mask-driven clauses enter as hypotheses (discharged by the corollaries below) *)
+Definition weekno_lambda (r : raw) (o : Z) : Z -> bool :=
+  fun x => let '(wy, w) := week_of (r_wkst r) o in (x =? w) || (x =? w - weeks_in (r_wkst r) wy - 1).
+Definition easter_lambda (y o : Z) : Z -> bool := fun x => o =? easter_ord_spec y + x.
+
+Lemma day_filter_core : forall r rl ii y i,
+  normalize r = Ok rl -> spec_wf r = true ->
+  ii_for ii y -> 1 <= y <= 9999 -> 0 <= i < year_len y ->
+  cl_weekday rl ii i = Ok (negb (in_opt (eff_byweekday r) (weekday_lambda r y i))) ->
+  cl_weekno rl ii i = Ok (negb (in_opt (r_byweekno r) (weekno_lambda r (jan1 y + i)))) ->
+  cl_easter rl ii i = Ok (negb (in_opt (r_byeaster r) (easter_lambda y (jan1 y + i)))) ->
+  day_rejected rl ii i = Ok (negb (day_ok r (jan1 y + i))).
+Proof.
+  intros r rl ii y i HN HW F Hy Hi HCD HCW HCE.
+  destruct (normalize_fields r rl HN) as (Nm & Nyd & Nmd & Nnmd & Nwn & Nea & Nwd).
+  (* unpack the domain predicate *)
+  unfold spec_wf in HW.
+  repeat match type of HW with _ && _ = true =>
+    let H := fresh "W" in apply andb_true_iff in HW; destruct HW as [HW H] end.
+  (* facts about the date at index i *)
+  destruct (ymd_at y i Hi) as [EY EYD].
+  pose proof (month_of_yday_spec y (i + 1) ltac:(lia)) as MS. cbv zeta in MS.
+  fold (month_at y i) in MS. destruct MS as [MS1 MS2].
+  pose proof (dbm_succ y (month_at y i) MS1) as DS.
+  assert (Dd : 1 <= mday_at y i <= dim y (month_at y i)) by (unfold mday_at; lia).
+  (* model side: the six clauses *)
+  unfold day_rejected.
+  rewrite (cl_month_correct rl ii y F i Hi), (cl_monthday_correct rl ii y F i Hi),
+          (cl_yearday_correct rl ii y F i Hi).
+  rewrite HCD, HCW, HCE.
+  (* specification side *)
+  unfold day_ok. rewrite EY, EYD.
+  fold (weekno_lambda r (jan1 y + i)). fold (easter_lambda y (jan1 y + i)).
+  fold (weekday_lambda r y i).
+  (* BYMONTH *)
+  assert (NEm : ne_opt (eff_bymonth r) = true).
+  { unfold eff_bymonth. destruct (r_bymonth r) as [l|]; [assumption|].
+    destruct (no_day_part r && (r_freq r =? YEARLY)); reflexivity. }
+  rewrite Nm, (month_clause (eff_bymonth r) (month_at y i) NEm).
+  (* BYMONTHDAY *)
+  assert (Vd : 1 <= r_d r).
+  { match goal with H : valid_ymd _ _ _ = true |- _ => unfold valid_ymd in H end. lia. }
+  assert (NEd : ne_opt (eff_bymonthday r) = true /\ all_opt (eff_bymonthday r) (fun x => negb (x =? 0)) = true).
+  { unfold eff_bymonthday. destruct (r_bymonthday r) as [l|]; [split; assumption|].
+    destruct (no_day_part r && ((r_freq r =? YEARLY) || (r_freq r =? MONTHLY))); [|split; reflexivity].
+    split; [reflexivity|]. cbn [all_opt forallb]. rewrite andb_true_r. apply negb_true_iff. lia. }
+  destruct NEd as [NEd Zd].
+  rewrite Nmd, Nnmd.
+  rewrite (monthday_clause (eff_bymonthday r) (mday_at y i) (mday_at y i - dim y (month_at y i) - 1)
+             NEd Zd ltac:(lia) ltac:(lia)).
+  (* BYYEARDAY *)
+  rewrite Nyd. rewrite (yearday_clause (r_byyearday r) (i + 1) (i + 1 - year_len y - 1)) by assumption.
   (* assemble *)
   destruct (in_opt (eff_bymonth r) (Z.eqb (month_at y i))),
     (in_opt (eff_bymonthday r) _), (in_opt (r_byyearday r) _), (in_opt (eff_byweekday r) _),
@@ -300,7 +314,8 @@ Theorem day_filter_correct_tables : forall r rl ii y i,
 Proof.
   intros r rl ii y i HN HW Hwn He Hp F Hnw Hy Hi.
   destruct (normalize_fields r rl HN) as (_ & _ & _ & _ & Nwn & Nea & _).
-  apply (day_filter_core r rl ii y i HN HW Hp F Hnw Hy Hi).
+  apply (day_filter_core r rl ii y i HN HW F Hy Hi).
+  - apply (weekday_plain_clause_ok r rl ii y i HN HW Hp F Hnw Hi).
   - unfold cl_weekno. rewrite Nwn, Hwn. reflexivity.
   - unfold cl_easter. rewrite Nea, He. reflexivity.
 Qed.
@@ -434,7 +449,8 @@ Proof.
     cbn [opt_list] in Pl. rewrite (split_plain _ l Pl) in Nwd.
     destruct (negb (nonempty (sort_set (map fst l)))); cbn [sort_set_pair fold_right nonempty negb] in Nwd;
       injection Nwd as _ Q; rewrite Q; reflexivity. }
-  apply (day_filter_core r rl ii y i HN HW Hp F Hnw ltac:(lia) Hi).
+  apply (day_filter_core r rl ii y i HN HW F ltac:(lia) Hi).
+  - apply (weekday_plain_clause_ok r rl ii y i HN HW Hp F Hnw Hi).
   - (* BYWEEKNO clause through the mask theorem *)
     unfold cl_weekno. rewrite Nwn.
     destruct (r_byweekno r) as [l|] eqn:EL; [|reflexivity].
@@ -460,4 +476,558 @@ Proof.
       by apply negb_involutive.
     f_equal. rewrite Pm. rewrite Nwk. reflexivity.
   - unfold cl_easter. rewrite Nea, He. reflexivity.
+Qed.
+
+(* ------------------------------------------------------------------ with BYEASTER (years of C19's theorem) *)
+Lemma In_insertZ x a l : In x (insertZ a l) <-> a = x \/ In x l.
+Proof.
+  induction l as [|h t IH]; cbn [insertZ In]; [tauto|].
+  destruct (a <=? h); cbn [In]; [tauto|]. rewrite IH. tauto.
+Qed.
+Lemma In_sortZ x l : In x (sortZ l) <-> In x l.
+Proof.
+  unfold sortZ. induction l as [|h t IH]; cbn [fold_right In]; [tauto|].
+  rewrite In_insertZ, IH. tauto.
+Qed.
+Lemma existsb_sortZ (p : Z -> bool) l : existsb p (sortZ l) = existsb p l.
+Proof.
+  destruct (existsb p l) eqn:E.
+  - apply existsb_exists in E. destruct E as (x & Hx & Px). apply existsb_exists. exists x.
+    split; [apply (proj2 (In_sortZ x l)); exact Hx|exact Px].
+  - destruct (existsb p (sortZ l)) eqn:E2; [|reflexivity].
+    apply existsb_exists in E2. destruct E2 as (x & Hx & Px). apply (proj1 (In_sortZ x l)) in Hx.
+    assert (existsb p l = true) by (apply existsb_exists; exists x; split; assumption). congruence.
+Qed.
+Lemma sortZ_nonempty l : nonempty (sortZ l) = nonempty l.
+Proof.
+  destruct l as [|h t]; [reflexivity|]. cbn [nonempty].
+  assert (M : In h (sortZ (h :: t))) by (apply (proj2 (In_sortZ h (h :: t))); left; reflexivity).
+  destruct (sortZ (h :: t)); [destruct M|reflexivity].
+Qed.
+
+Lemma rebuild_easter rl y month ii' : 1 <= y <= 9999 -> rebuild rl ii_init y month = Ok ii' ->
+  truthy (byeaster rl) = true ->
+  exists eo m, RRMasks.easter_ord y = Ok eo /\ eastermask ii' = Some m /\
+    build_eastermask (eo - jan1 y) (year_len y) (opt_list (byeaster rl)) = Ok m.
+Proof.
+  intros Hy HR TE. revert HR. unfold rebuild.
+  change (lastyear ii_init) with (@None Z). change (opt_neqb None y) with true. cbv iota.
+  unfold date_ord. assert (V : valid_ymd y 1 1 = true) by (unfold valid_ymd; change (dim y 1) with 31; lia).
+  rewrite V. cbn [bind]. fold (jan1 y). rewrite !year_len_365.
+  destruct (if year_len y =? 365 then _ else _) as [[[mm mdm] nmdm] mr].
+  destruct (if negb (truthy (byweekno rl)) then _ else _) as [wno|e]; cbn [bind]; [|discriminate].
+  match goal with |- bind ?r _ = _ -> _ => destruct r as [[nwd month']|e]; cbn [bind]; [|discriminate] end.
+  rewrite TE. cbn [yearordinal yearlen].
+  destruct (RRMasks.easter_ord y) as [eo|e]; cbn [bind]; [|discriminate].
+  destruct (build_eastermask (eo - jan1 y) (year_len y) (opt_list (byeaster rl))) as [m|e] eqn:EB;
+    cbn [bind]; [|discriminate].
+  intros E. inversion E; subst. cbn. exists eo, m. split; [reflexivity|split; [reflexivity|exact EB]].
+Qed.
+
+(* the final statement of layer 4 for the day-selecting parts BYMONTH, BYMONTHDAY, BYYEARDAY, plain
+   BYDAY, BYWEEKNO (guarded) and BYEASTER (years of C19's theorem), on the year's own days *)
+Theorem day_filter_correct_guarded : forall r rl y month ii i,
+  normalize r = Ok rl -> spec_wf r = true -> plain_only r = true ->
+  all_opt (r_byweekno r) RRWeekFinal.weekno_safe = true ->
+  (r_byeaster r = None \/ 1583 <= y <= 4099) ->
+  2 <= y <= 9999 -> rebuild rl ii_init y month = Ok ii -> 0 <= i < year_len y ->
+  day_rejected rl ii i = Ok (negb (day_ok r (jan1 y + i))).
+Proof.
+  intros r rl y month ii i HN HW Hp Hs He Hy HR Hi.
+  destruct (normalize_fields r rl HN) as (_ & _ & _ & _ & Nwn & Nea & Nwd).
+  pose proof (normalize_wkst r rl HN) as Nwk.
+  destruct (rebuild_char rl y month ii ltac:(lia) HR) as (F & Cnw & Cwn).
+  pose proof HW as HW'. unfold spec_wf in HW'.
+  repeat match type of HW' with _ && _ = true =>
+    let H := fresh "W" in apply andb_true_iff in HW'; destruct HW' as [HW' H] end.
+  assert (Hnw : nwdaymask ii = None).
+  { apply Cnw. unfold wd_split in Nwd. unfold plain_only in Hp.
+    assert (Pl : forallb (fun wn : Z * Z => snd wn =? 0) (opt_list (eff_byweekday r)) = true).
+    { unfold eff_byweekday. destruct (r_byweekday r); [exact Hp|].
+      destruct (no_day_part r && (r_freq r =? WEEKLY)); reflexivity. }
+    destruct (eff_byweekday r) as [l|]; [|injection Nwd as _ Q; rewrite Q; reflexivity].
+    cbn [opt_list] in Pl. rewrite (split_plain _ l Pl) in Nwd.
+    destruct (negb (nonempty (sort_set (map fst l)))); cbn [sort_set_pair fold_right nonempty negb] in Nwd;
+      injection Nwd as _ Q; rewrite Q; reflexivity. }
+  apply (day_filter_core r rl ii y i HN HW F ltac:(lia) Hi).
+  - apply (weekday_plain_clause_ok r rl ii y i HN HW Hp F Hnw Hi).
+  - unfold cl_weekno. rewrite Nwn.
+    destruct (r_byweekno r) as [l|] eqn:EL; [|reflexivity].
+    assert (NE : ne_opt (Some l) = true) by assumption.
+    assert (TT : truthy (option_map sort_set (Some l)) = true).
+    { rewrite (truthy_map_sort (Some l) NE). reflexivity. }
+    rewrite TT. rewrite Nwn in Cwn. destruct (Cwn TT) as (m & Em & Eb). rewrite Em.
+    cbn [option_map opt_list] in Eb.
+    assert (SAFE : forallb RRWeekFinal.weekno_safe (sort_set l) = true).
+    { apply forallb_sort_set. exact Hs. }
+    assert (Hk : 0 <= wkst rl <= 6).
+    { rewrite Nwk. match goal with H : between 0 6 (r_wkst r) = true |- _ => unfold between in H end. lia. }
+    destruct (RRWeekTop.wnomask_correct_calendar y (wkst rl) (sort_set l) Hy Hk SAFE) as (m' & Em' & Lm & Pm).
+    cbv zeta in Em'. rewrite Eb in Em'. injection Em' as <-.
+    rewrite (py_nth_nth m i) by lia. cbn [bind].
+    assert (U : RRWeekDefs.used_index (shape_of y) (wkst rl) i = true).
+    { unfold RRWeekDefs.used_index. change (RRWeekDefs.sh_ylen (shape_of y)) with (year_len y).
+      apply andb_true_iff. split; [lia|]. apply orb_true_iff. left. lia. }
+    specialize (Pm i U). unfold RRWeekThm.nzb in Pm.
+    f_equal. cbn [in_opt].
+    rewrite <- (existsb_sort_set (weekno_lambda r (jan1 y + i)) l).
+    replace (nth (Z.to_nat i) m 0 =? 0) with (negb (negb (nth (Z.to_nat i) m 0 =? 0)))
+      by apply negb_involutive.
+    f_equal. rewrite Pm. rewrite Nwk. reflexivity.
+  - unfold cl_easter. rewrite Nea.
+    destruct (r_byeaster r) as [l|] eqn:EL; [|reflexivity].
+    destruct He as [He|He]; [discriminate He|].
+    assert (NE : nonempty l = true).
+    { match goal with H : ne_opt (Some l) = true |- _ => destruct l; [discriminate H|reflexivity] end. }
+    assert (TT : truthy (option_map sortZ (Some l)) = true).
+    { cbn [option_map truthy]. pose proof (sortZ_nonempty l) as SN. rewrite NE in SN.
+      destruct (sortZ l); [discriminate SN|reflexivity]. }
+    rewrite TT.
+    destruct (rebuild_easter rl y month ii ltac:(lia) HR ltac:(rewrite Nea; exact TT)) as (eo & m & Eo & Em & Eb).
+    rewrite Em. rewrite Nea in Eb. cbn [option_map opt_list] in Eb.
+    destruct (RREasterThm.eastermask_correct_own_year y (sortZ l) He) as (eo' & m' & Eo' & Eb' & Pm).
+    cbv zeta in Eb', Pm. fold (jan1 y) in Eb', Pm.
+    rewrite Eo in Eo'. injection Eo' as <-. rewrite Eb in Eb'. injection Eb' as <-.
+    assert (Lm : zlen m = year_len y + 7).
+    { destruct (RREasterThm.eastermask_fold_correct (eo - jan1 y) (year_len y) (sortZ l)
+                  ltac:(unfold year_len; destruct (is_leap y); lia)) as (m2 & E2 & L2 & _).
+      rewrite Eb in E2. injection E2 as <-. exact L2. }
+    rewrite (py_nth_nth m i) by lia. cbn [bind].
+    specialize (Pm i ltac:(lia)). unfold RRWeekThm.nzb in Pm.
+    f_equal. cbn [in_opt]. rewrite <- (existsb_sortZ (easter_lambda y (jan1 y + i)) l).
+    replace (nth (Z.to_nat i) m 0 =? 0) with (negb (negb (nth (Z.to_nat i) m 0 =? 0)))
+      by apply negb_involutive.
+    f_equal. rewrite Pm. reflexivity.
+Qed.
+
+(* ------------------------------------------------------------------ nth-weekday BYDAY, MONTHLY *)
+Lemma pair_eq_true a b : pair_eq a b = true -> a = b.
+Proof.
+  unfold pair_eq. destruct a as [a1 a2], b as [b1 b2]. cbn [fst snd]. intros H.
+  apply andb_true_iff in H. destruct H as [H1 H2]. apply Z.eqb_eq in H1, H2. subst. reflexivity.
+Qed.
+Lemma In_insert_uniq_pair x a l : In x (insert_uniq_pair a l) <-> a = x \/ In x l.
+Proof.
+  induction l as [|h t IH]; cbn [insert_uniq_pair In]; [tauto|].
+  destruct (pair_lt a h); cbn [In]; [tauto|].
+  destruct (pair_eq a h) eqn:E; cbn [In].
+  - apply pair_eq_true in E. subst. tauto.
+  - rewrite IH. tauto.
+Qed.
+Lemma In_sort_set_pair x l : In x (sort_set_pair l) <-> In x l.
+Proof.
+  unfold sort_set_pair. induction l as [|h t IH]; cbn [fold_right In]; [tauto|].
+  rewrite In_insert_uniq_pair, IH. tauto.
+Qed.
+Lemma existsb_sort_set_pair (p : Z * Z -> bool) l : existsb p (sort_set_pair l) = existsb p l.
+Proof.
+  destruct (existsb p l) eqn:E.
+  - apply existsb_exists in E. destruct E as (x & Hx & Px). apply existsb_exists. exists x.
+    split; [apply (proj2 (In_sort_set_pair x l)); exact Hx|exact Px].
+  - destruct (existsb p (sort_set_pair l)) eqn:E2; [|reflexivity].
+    apply existsb_exists in E2. destruct E2 as (x & Hx & Px). apply (proj1 (In_sort_set_pair x l)) in Hx.
+    assert (existsb p l = true) by (apply existsb_exists; exists x; split; assumption). congruence.
+Qed.
+
+(* the split of BYDAY into plain weekdays and (weekday, n) pairs, FREQ <= MONTHLY *)
+Lemma split_spec fr (q : Z -> bool) wd l : (MONTHLY <? fr) = false ->
+  let '(plain, nth) := split_weekday fr l in
+  existsb (fun wn : Z * Z => let '(w, n) := wn in
+             (w =? wd) && (if (n =? 0) || (MONTHLY <? fr) then true else q n)) l =
+  memZ wd plain || existsb (fun wn : Z * Z => (wd =? fst wn) && q (snd wn)) nth /\
+  (forall wn, In wn nth -> In wn l /\ snd wn <> 0).
+Proof.
+  intros Hf. unfold split_weekday. induction l as [|[w n] t IH]; cbn [fold_right existsb].
+  - split; [reflexivity|]. intros wn [].
+  - destruct (fold_right _ ([], []) t) as [plain nth]. destruct IH as [IH1 IH2].
+    rewrite Hf in IH1 |- *. rewrite orb_false_r. destruct (n =? 0) eqn:En; cbn [fst snd].
+    + split.
+      * rewrite IH1. unfold memZ. cbn [existsb]. rewrite (Z.eqb_sym wd w), andb_true_r.
+        destruct (w =? wd), (existsb (Z.eqb wd) plain); reflexivity.
+      * intros wn Hin. destruct (IH2 wn Hin). split; [right; assumption|assumption].
+    + split.
+      * rewrite IH1. cbn [existsb fst snd]. rewrite (Z.eqb_sym wd w).
+        destruct ((w =? wd) && q n), (memZ wd plain); reflexivity.
+      * intros wn [<-|Hin]; [split; [left; reflexivity|cbn [snd]; lia]|].
+        destruct (IH2 wn Hin). split; [right; assumption|assumption].
+Qed.
+
+Lemma rebuild_nwd_monthly rl y month ii' :
+  1 <= y <= 9999 -> freq rl = MONTHLY -> truthy (bynweekday rl) = true ->
+  rebuild rl ii_init y month = Ok ii' ->
+  exists m, nwdaymask ii' = Some m /\
+    fold_res (nwd_range (wdm_of (weekday_of_ord (jan1 y))) (opt_list (bynweekday rl)))
+             [py_slice (RRNwdCal.mrange_of (is_leap y)) (month - 1) (month + 1)]
+             (zeros (Z.to_nat (year_len y))) = Ok m.
+Proof.
+  intros Hy Hf TN. unfold rebuild.
+  change (lastyear ii_init) with (@None Z). change (opt_neqb None y) with true. cbv iota.
+  change (lastmonth ii_init) with (@None Z). change (opt_neqb None month) with true.
+  unfold date_ord. assert (V : valid_ymd y 1 1 = true) by (unfold valid_ymd; change (dim y 1) with 31; lia).
+  rewrite V. cbn [bind]. fold (jan1 y). rewrite !year_len_365.
+  assert (T : (if year_len y =? 365
+               then (T_M365MASK, T_MDAY365MASK, T_NMDAY365MASK, T_M365RANGE)
+               else (T_M366MASK, T_MDAY366MASK, T_NMDAY366MASK, T_M366RANGE)) =
+              (fst (fst (fst (masks_for y))), snd (fst (fst (masks_for y))), snd (fst (masks_for y)),
+               RRNwdCal.mrange_of (is_leap y))).
+  { unfold masks_for, tables_of, RRNwdCal.mrange_of, year_len. destruct (is_leap y); reflexivity. }
+  rewrite T. clear T.
+  destruct (if negb (truthy (byweekno rl)) then _ else _) as [wno|e]; cbn [bind]; [|discriminate].
+  rewrite TN, Hf. cbn [andb orb yearlen mrange wdaymask].
+  change (MONTHLY =? YEARLY) with false. change (MONTHLY =? MONTHLY) with true. cbv iota.
+  cbn [nonempty]. unfold py_repeat. fold (zeros (Z.to_nat (year_len y))).
+  fold (wdm_of (weekday_of_ord (jan1 y))).
+  destruct (fold_res _ _ _) as [m|e] eqn:EF; cbn [bind]; [|discriminate].
+  match goal with |- bind ?r _ = _ -> _ => destruct r as [em|e]; cbn [bind]; [|discriminate] end.
+  intros E. inversion E; subst. cbn. exists m. split; reflexivity.
+Qed.
+
+Lemma normalize_freq r rl : normalize r = Ok rl -> freq rl = r_freq r.
+Proof.
+  unfold normalize.
+  destruct (if r_isdate r then (0, 0, 0) else (r_H r, r_M r, r_S r)) as [[hh mm] ss].
+  destruct (negb (is_none (r_until r)) && r_tzmix r); [discriminate|].
+  destruct (negb match r_bysetpos r with None => true | Some l => setpos_ok l end); [discriminate|].
+  match goal with |- (let '(_, _) := ?p in _) = _ -> _ => destruct p end.
+  intros H.
+  repeat match type of H with
+  | bind ?x _ = _ => destruct x; cbn [bind] in H; [|discriminate H]
+  end.
+  inversion H; subst; reflexivity.
+Qed.
+
+(* MONTHLY rule with at least one nth weekday: the weekday clause (plain OR nth, fix 5028dcd) on the
+   days of the cursor's month = the specification's BYDAY predicate *)
+Lemma weekday_nth_clause_monthly r rl y month ii i :
+  normalize r = Ok rl -> spec_wf r = true -> r_freq r = MONTHLY ->
+  truthy (bynweekday rl) = true -> 1 <= y <= 9999 -> 1 <= month <= 12 ->
+  rebuild rl ii_init y month = Ok ii -> dbm y month <= i < dbm y (month + 1) ->
+  cl_weekday rl ii i = Ok (negb (in_opt (eff_byweekday r) (weekday_lambda r y i))).
+Proof.
+  intros HN HW Hfr TN Hy Hm HR Hi.
+  destruct (normalize_fields r rl HN) as (_ & _ & _ & _ & _ & _ & Nwd).
+  pose proof (normalize_freq r rl HN) as Nfr. rewrite Hfr in Nfr.
+  pose proof (rebuild_ii_for rl y month ii Hy HR) as F.
+  (* the date at index i *)
+  pose proof (dbm_mono y 1 month ltac:(lia) ltac:(lia) ltac:(lia)) as M1.
+  pose proof (dbm_mono y (month + 1) 13 ltac:(lia) ltac:(lia) ltac:(lia)) as M2.
+  rewrite dbm_1 in M1. rewrite dbm_13 in M2.
+  assert (Hi' : 0 <= i < year_len y) by lia.
+  assert (EMo : month_at y i = month) by (unfold month_at; apply month_of_yday_unique; lia).
+  assert (EMd : mday_at y i = i + 1 - dbm y month) by (unfold mday_at; rewrite EMo; reflexivity).
+  (* the domain predicate *)
+  unfold spec_wf in HW.
+  repeat match type of HW with _ && _ = true =>
+    let H := fresh "W" in apply andb_true_iff in HW; destruct HW as [HW H] end.
+  (* shape of the BYDAY argument *)
+  unfold wd_split in Nwd.
+  destruct (eff_byweekday r) as [l|] eqn:EL.
+  2:{ injection Nwd as _ Q. rewrite Q in TN. discriminate TN. }
+  assert (WD : forallb (fun wn : Z * Z => between 0 6 (fst wn)) l = true).
+  { unfold eff_byweekday in EL. destruct (r_byweekday r) as [l0|].
+    - injection EL as <-. assumption.
+    - destruct (no_day_part r && (r_freq r =? WEEKLY)); [|discriminate EL]. injection EL as <-.
+      cbn [forallb fst]. unfold between. pose proof (weekday_of_ord_range (sp_ord0 r)). lia. }
+  pose proof (split_spec (r_freq r) (fun n => nth_in (mday_at y i) (dim y (month_at y i)) n)
+                (weekday_of_ord (jan1 y + i)) l ltac:(rewrite Hfr; reflexivity)) as SP.
+  destruct (split_weekday (r_freq r) l) as [plain nth]. destruct SP as [SP1 SP2].
+  (* pairs handed to rebuild *)
+  assert (PK : forall wn, In wn (sort_set_pair nth) -> pair_ok wn).
+  { intros wn Hin. apply (proj1 (In_sort_set_pair wn nth)) in Hin. destruct (SP2 wn Hin) as [Hl Hn].
+    split; [|exact Hn]. rewrite forallb_forall in WD. specialize (WD wn Hl). unfold between in WD. lia. }
+  assert (BN : bynweekday rl = Some (sort_set_pair nth) /\
+               byweekday rl = (if nonempty (sort_set plain) then Some (sort_set plain) else None)).
+  { destruct (nonempty (sort_set plain)); cbn [negb] in Nwd.
+    - destruct (nonempty (sort_set_pair nth)) eqn:NN; cbn [negb] in Nwd.
+      + injection Nwd as Q1 Q2. split; assumption.
+      + injection Nwd as Q1 Q2. rewrite Q2 in TN. discriminate TN.
+    - injection Nwd as Q1 Q2. split; assumption. }
+  destruct BN as [BN BW].
+  (* the mask rebuild() built *)
+  destruct (rebuild_nwd_monthly rl y month ii Hy Nfr TN HR) as (m & Em & Ef).
+  rewrite BN in Ef. cbn [opt_list] in Ef.
+  destruct (nwdaymask_monthly_calendar y month (sort_set_pair nth) Hm PK) as (m' & Ef' & Pm).
+  cbv zeta in Ef'. rewrite Ef in Ef'. injection Ef' as <-.
+  assert (Hylen : Z.of_nat (Z.to_nat (year_len y)) = year_len y) by lia.
+  assert (YL : 365 <= year_len y <= 366) by (unfold year_len; destruct (is_leap y); lia).
+  pose proof (weekday_of_ord_range (jan1 y)) as Rw.
+  destruct (nwdaymask_correct (weekday_of_ord (jan1 y)) (Z.to_nat (year_len y))
+              [[dbm y month; dbm y (month + 1)]] (sort_set_pair nth) Rw ltac:(lia)) as (m2 & Ef2 & Lm & _).
+  { intros rg [<-|[]]. exists (dbm y month), (dbm y (month + 1)). split; [reflexivity|]. lia. }
+  { exact PK. }
+  rewrite <- (RRNwdCal.mrange_slice y month Hm) in Ef2. rewrite Ef in Ef2. injection Ef2 as <-.
+  (* evaluate the clause *)
+  unfold cl_weekday. rewrite Em.
+  assert (TM : truthy (Some m) = true).
+  { cbn [truthy]. destruct m; [cbn in Lm; lia|reflexivity]. }
+  rewrite TM, orb_true_r. cbn [opt_list].
+  rewrite (f_wdm ii y F). rewrite (wdm_nth _ i Rw ltac:(lia)). rewrite <- wd_shift.
+  rewrite (py_nth_nth m i) by (unfold zlen; lia). cbn [bind].
+  specialize (Pm i Hi'). unfold RRWeekThm.nzb in Pm.
+  replace ((dbm y month <=? i) && (i <? dbm y (month + 1))) with true in Pm by lia. cbn [andb] in Pm.
+  rewrite existsb_sort_set_pair in Pm.
+  (* the specification side *)
+  cbn [in_opt]. unfold weekday_lambda. rewrite Hfr in *. change (MONTHLY =? MONTHLY) with true.
+  cbn [orb]. rewrite SP1. rewrite EMo, EMd in *.
+  rewrite BW. destruct (nonempty (sort_set plain)) eqn:NP.
+  - assert (TT : truthy (Some (sort_set plain)) = true).
+    { cbn [truthy]. destruct (sort_set plain); [discriminate NP|reflexivity]. }
+    rewrite TT. cbn [opt_list bind]. rewrite memZ_sort_set.
+    destruct (memZ (weekday_of_ord (jan1 y + i)) plain); cbn [bind orb negb]; [reflexivity|].
+    rewrite Pm. reflexivity.
+  - cbn [truthy bind]. assert (PE : plain = []).
+    { rewrite sort_set_nonempty in NP. destruct plain; [reflexivity|discriminate NP]. }
+    rewrite PE. cbn [memZ existsb orb]. unfold memZ. cbn [existsb orb]. rewrite Pm. reflexivity.
+Qed.
+
+(* MONTHLY rules with nth weekdays (plain OR nth), on the days of the cursor's month; BYWEEKNO and
+   BYEASTER under the same guards as above *)
+Theorem day_filter_correct_monthly_nth_guarded : forall r rl y month ii i,
+  normalize r = Ok rl -> spec_wf r = true -> r_freq r = MONTHLY -> truthy (bynweekday rl) = true ->
+  all_opt (r_byweekno r) RRWeekFinal.weekno_safe = true ->
+  (r_byeaster r = None \/ 1583 <= y <= 4099) ->
+  2 <= y <= 9999 -> 1 <= month <= 12 -> rebuild rl ii_init y month = Ok ii ->
+  dbm y month <= i < dbm y (month + 1) ->
+  day_rejected rl ii i = Ok (negb (day_ok r (jan1 y + i))).
+Proof.
+  intros r rl y month ii i HN HW Hfr TN Hs He Hy Hm HR Hi0.
+  pose proof (dbm_mono y 1 month ltac:(lia) ltac:(lia) ltac:(lia)) as M1.
+  pose proof (dbm_mono y (month + 1) 13 ltac:(lia) ltac:(lia) ltac:(lia)) as M2.
+  rewrite dbm_1 in M1. rewrite dbm_13 in M2.
+  assert (Hi : 0 <= i < year_len y) by lia.
+  destruct (normalize_fields r rl HN) as (_ & _ & _ & _ & Nwn & Nea & Nwd).
+  pose proof (normalize_wkst r rl HN) as Nwk.
+  destruct (rebuild_char rl y month ii ltac:(lia) HR) as (F & Cnw & Cwn).
+  pose proof HW as HW'. unfold spec_wf in HW'.
+  repeat match type of HW' with _ && _ = true =>
+    let H := fresh "W" in apply andb_true_iff in HW'; destruct HW' as [HW' H] end.
+  apply (day_filter_core r rl ii y i HN HW F ltac:(lia) Hi).
+  - apply (weekday_nth_clause_monthly r rl y month ii i HN HW Hfr TN ltac:(lia) Hm HR Hi0).
+  - unfold cl_weekno. rewrite Nwn.
+    destruct (r_byweekno r) as [l|] eqn:EL; [|reflexivity].
+    assert (NE : ne_opt (Some l) = true) by assumption.
+    assert (TT : truthy (option_map sort_set (Some l)) = true).
+    { rewrite (truthy_map_sort (Some l) NE). reflexivity. }
+    rewrite TT. rewrite Nwn in Cwn. destruct (Cwn TT) as (m & Em & Eb). rewrite Em.
+    cbn [option_map opt_list] in Eb.
+    assert (SAFE : forallb RRWeekFinal.weekno_safe (sort_set l) = true).
+    { apply forallb_sort_set. exact Hs. }
+    assert (Hk : 0 <= wkst rl <= 6).
+    { rewrite Nwk. match goal with H : between 0 6 (r_wkst r) = true |- _ => unfold between in H end. lia. }
+    destruct (RRWeekTop.wnomask_correct_calendar y (wkst rl) (sort_set l) Hy Hk SAFE) as (m' & Em' & Lm & Pm).
+    cbv zeta in Em'. rewrite Eb in Em'. injection Em' as <-.
+    rewrite (py_nth_nth m i) by lia. cbn [bind].
+    assert (U : RRWeekDefs.used_index (shape_of y) (wkst rl) i = true).
+    { unfold RRWeekDefs.used_index. change (RRWeekDefs.sh_ylen (shape_of y)) with (year_len y).
+      apply andb_true_iff. split; [lia|]. apply orb_true_iff. left. lia. }
+    specialize (Pm i U). unfold RRWeekThm.nzb in Pm.
+    f_equal. cbn [in_opt].
+    rewrite <- (existsb_sort_set (weekno_lambda r (jan1 y + i)) l).
+    replace (nth (Z.to_nat i) m 0 =? 0) with (negb (negb (nth (Z.to_nat i) m 0 =? 0)))
+      by apply negb_involutive.
+    f_equal. rewrite Pm. rewrite Nwk. reflexivity.
+  - unfold cl_easter. rewrite Nea.
+    destruct (r_byeaster r) as [l|] eqn:EL; [|reflexivity].
+    destruct He as [He|He]; [discriminate He|].
+    assert (NE : nonempty l = true).
+    { match goal with H : ne_opt (Some l) = true |- _ => destruct l; [discriminate H|reflexivity] end. }
+    assert (TT : truthy (option_map sortZ (Some l)) = true).
+    { cbn [option_map truthy]. pose proof (sortZ_nonempty l) as SN. rewrite NE in SN.
+      destruct (sortZ l); [discriminate SN|reflexivity]. }
+    rewrite TT.
+    destruct (rebuild_easter rl y month ii ltac:(lia) HR ltac:(rewrite Nea; exact TT)) as (eo & m & Eo & Em & Eb).
+    rewrite Em. rewrite Nea in Eb. cbn [option_map opt_list] in Eb.
+    destruct (RREasterThm.eastermask_correct_own_year y (sortZ l) He) as (eo' & m' & Eo' & Eb' & Pm).
+    cbv zeta in Eb', Pm. fold (jan1 y) in Eb', Pm.
+    rewrite Eo in Eo'. injection Eo' as <-. rewrite Eb in Eb'. injection Eb' as <-.
+    assert (Lm : zlen m = year_len y + 7).
+    { destruct (RREasterThm.eastermask_fold_correct (eo - jan1 y) (year_len y) (sortZ l)
+                  ltac:(unfold year_len; destruct (is_leap y); lia)) as (m2 & E2 & L2 & _).
+      rewrite Eb in E2. injection E2 as <-. exact L2. }
+    rewrite (py_nth_nth m i) by lia. cbn [bind].
+    specialize (Pm i ltac:(lia)). unfold RRWeekThm.nzb in Pm.
+    f_equal. cbn [in_opt]. rewrite <- (existsb_sortZ (easter_lambda y (jan1 y + i)) l).
+    replace (nth (Z.to_nat i) m 0 =? 0) with (negb (negb (nth (Z.to_nat i) m 0 =? 0)))
+      by apply negb_involutive.
+    f_equal. rewrite Pm. reflexivity.
+Qed.
+
+Lemma rebuild_nwd_yearly rl y month ii' :
+  1 <= y <= 9999 -> freq rl = YEARLY -> truthy (bymonth rl) = false -> truthy (bynweekday rl) = true ->
+  rebuild rl ii_init y month = Ok ii' ->
+  exists m, nwdaymask ii' = Some m /\
+    fold_res (nwd_range (wdm_of (weekday_of_ord (jan1 y))) (opt_list (bynweekday rl)))
+             [[0; year_len y]]
+             (zeros (Z.to_nat (year_len y))) = Ok m.
+Proof.
+  intros Hy Hf TB TN. unfold rebuild.
+  change (lastyear ii_init) with (@None Z). change (opt_neqb None y) with true. cbv iota.
+  change (lastmonth ii_init) with (@None Z). change (opt_neqb None month) with true.
+  unfold date_ord. assert (V : valid_ymd y 1 1 = true) by (unfold valid_ymd; change (dim y 1) with 31; lia).
+  rewrite V. cbn [bind]. fold (jan1 y). rewrite !year_len_365.
+  assert (T : (if year_len y =? 365
+               then (T_M365MASK, T_MDAY365MASK, T_NMDAY365MASK, T_M365RANGE)
+               else (T_M366MASK, T_MDAY366MASK, T_NMDAY366MASK, T_M366RANGE)) =
+              (fst (fst (fst (masks_for y))), snd (fst (fst (masks_for y))), snd (fst (masks_for y)),
+               RRNwdCal.mrange_of (is_leap y))).
+  { unfold masks_for, tables_of, RRNwdCal.mrange_of, year_len. destruct (is_leap y); reflexivity. }
+  rewrite T. clear T.
+  destruct (if negb (truthy (byweekno rl)) then _ else _) as [wno|e]; cbn [bind]; [|discriminate].
+  rewrite TN, Hf, TB. cbn [andb orb yearlen mrange wdaymask].
+  change (YEARLY =? YEARLY) with true. cbv iota.
+  cbn [nonempty]. unfold py_repeat. fold (zeros (Z.to_nat (year_len y))).
+  fold (wdm_of (weekday_of_ord (jan1 y))).
+  destruct (fold_res _ _ _) as [m|e] eqn:EF; cbn [bind]; [|discriminate].
+  match goal with |- bind ?r _ = _ -> _ => destruct r as [em|e]; cbn [bind]; [|discriminate] end.
+  intros E. inversion E; subst. cbn. exists m. split; reflexivity.
+Qed.
+
+(* YEARLY rule without BYMONTH with at least one nth weekday (n-th weekday of the YEAR), every day of
+   the year *)
+Lemma weekday_nth_clause_yearly r rl y month ii i :
+  normalize r = Ok rl -> spec_wf r = true -> r_freq r = YEARLY -> r_bymonth r = None ->
+  truthy (bynweekday rl) = true -> 1 <= y <= 9999 ->
+  rebuild rl ii_init y month = Ok ii -> 0 <= i < year_len y ->
+  cl_weekday rl ii i = Ok (negb (in_opt (eff_byweekday r) (weekday_lambda r y i))).
+Proof.
+  intros HN HW Hfr Hbm TN Hy HR Hi'.
+  destruct (normalize_fields r rl HN) as (Nm & _ & _ & _ & _ & _ & Nwd).
+  pose proof (normalize_freq r rl HN) as Nfr. rewrite Hfr in Nfr.
+  pose proof (rebuild_ii_for rl y month ii Hy HR) as F.
+  (* the domain predicate *)
+  unfold spec_wf in HW.
+  repeat match type of HW with _ && _ = true =>
+    let H := fresh "W" in apply andb_true_iff in HW; destruct HW as [HW H] end.
+  (* shape of the BYDAY argument *)
+  unfold wd_split in Nwd.
+  destruct (eff_byweekday r) as [l|] eqn:EL.
+  2:{ injection Nwd as _ Q. rewrite Q in TN. discriminate TN. }
+  assert (TB : truthy (bymonth rl) = false).
+  { rewrite Nm. unfold eff_bymonth. rewrite Hbm.
+    assert (ND : no_day_part r = false).
+    { unfold no_day_part. unfold eff_byweekday in EL. destruct (r_byweekday r); cbn [is_none].
+      - rewrite andb_false_r. reflexivity.
+      - rewrite Hfr in EL. change (YEARLY =? WEEKLY) with false in EL. rewrite andb_false_r in EL. discriminate EL. }
+    rewrite ND. reflexivity. }
+  assert (WD : forallb (fun wn : Z * Z => between 0 6 (fst wn)) l = true).
+  { unfold eff_byweekday in EL. destruct (r_byweekday r) as [l0|].
+    - injection EL as <-. assumption.
+    - destruct (no_day_part r && (r_freq r =? WEEKLY)); [|discriminate EL]. injection EL as <-.
+      cbn [forallb fst]. unfold between. pose proof (weekday_of_ord_range (sp_ord0 r)). lia. }
+  pose proof (split_spec (r_freq r) (fun n => nth_in (i + 1) (year_len y) n)
+                (weekday_of_ord (jan1 y + i)) l ltac:(rewrite Hfr; reflexivity)) as SP.
+  destruct (split_weekday (r_freq r) l) as [plain nth]. destruct SP as [SP1 SP2].
+  (* pairs handed to rebuild *)
+  assert (PK : forall wn, In wn (sort_set_pair nth) -> pair_ok wn).
+  { intros wn Hin. apply (proj1 (In_sort_set_pair wn nth)) in Hin. destruct (SP2 wn Hin) as [Hl Hn].
+    split; [|exact Hn]. rewrite forallb_forall in WD. specialize (WD wn Hl). unfold between in WD. lia. }
+  assert (BN : bynweekday rl = Some (sort_set_pair nth) /\
+               byweekday rl = (if nonempty (sort_set plain) then Some (sort_set plain) else None)).
+  { destruct (nonempty (sort_set plain)); cbn [negb] in Nwd.
+    - destruct (nonempty (sort_set_pair nth)) eqn:NN; cbn [negb] in Nwd.
+      + injection Nwd as Q1 Q2. split; assumption.
+      + injection Nwd as Q1 Q2. rewrite Q2 in TN. discriminate TN.
+    - injection Nwd as Q1 Q2. split; assumption. }
+  destruct BN as [BN BW].
+  (* the mask rebuild() built *)
+  destruct (rebuild_nwd_yearly rl y month ii Hy Nfr TB TN HR) as (m & Em & Ef).
+  rewrite BN in Ef. cbn [opt_list] in Ef.
+  destruct (nwdaymask_yearly_calendar y (sort_set_pair nth) PK) as (m' & Ef' & Pm).
+  cbv zeta in Ef'. rewrite Ef in Ef'. injection Ef' as <-.
+  assert (Hylen : Z.of_nat (Z.to_nat (year_len y)) = year_len y) by lia.
+  assert (YL : 365 <= year_len y <= 366) by (unfold year_len; destruct (is_leap y); lia).
+  pose proof (weekday_of_ord_range (jan1 y)) as Rw.
+  destruct (nwdaymask_correct (weekday_of_ord (jan1 y)) (Z.to_nat (year_len y))
+              [[0; year_len y]] (sort_set_pair nth) Rw ltac:(lia)) as (m2 & Ef2 & Lm & _).
+  { intros rg [<-|[]]. exists 0, (year_len y). split; [reflexivity|]. lia. }
+  { exact PK. }
+  rewrite Ef in Ef2. injection Ef2 as <-.
+  (* evaluate the clause *)
+  unfold cl_weekday. rewrite Em.
+  assert (TM : truthy (Some m) = true).
+  { cbn [truthy]. destruct m; [cbn in Lm; lia|reflexivity]. }
+  rewrite TM, orb_true_r. cbn [opt_list].
+  rewrite (f_wdm ii y F). rewrite (wdm_nth _ i Rw ltac:(lia)). rewrite <- wd_shift.
+  rewrite (py_nth_nth m i) by (unfold zlen; lia). cbn [bind].
+  specialize (Pm i Hi'). unfold RRWeekThm.nzb in Pm.
+  rewrite existsb_sort_set_pair in Pm.
+  (* the specification side *)
+  cbn [in_opt]. unfold weekday_lambda. rewrite Hfr in *. rewrite Hbm. change (YEARLY =? MONTHLY) with false.
+  cbn [orb negb is_none]. rewrite SP1.
+  rewrite BW. destruct (nonempty (sort_set plain)) eqn:NP.
+  - assert (TT : truthy (Some (sort_set plain)) = true).
+    { cbn [truthy]. destruct (sort_set plain); [discriminate NP|reflexivity]. }
+    rewrite TT. cbn [opt_list bind]. rewrite memZ_sort_set.
+    destruct (memZ (weekday_of_ord (jan1 y + i)) plain); cbn [bind orb negb]; [reflexivity|].
+    rewrite Pm. reflexivity.
+  - cbn [truthy bind]. assert (PE : plain = []).
+    { rewrite sort_set_nonempty in NP. destruct plain; [reflexivity|discriminate NP]. }
+    rewrite PE. cbn [memZ existsb orb]. unfold memZ. cbn [existsb orb]. rewrite Pm. reflexivity.
+Qed.
+
+(* YEARLY rules without BYMONTH with nth weekdays (n-th weekday of the year), every day of the year *)
+Theorem day_filter_correct_yearly_nth_guarded : forall r rl y month ii i,
+  normalize r = Ok rl -> spec_wf r = true -> r_freq r = YEARLY -> r_bymonth r = None ->
+  truthy (bynweekday rl) = true ->
+  all_opt (r_byweekno r) RRWeekFinal.weekno_safe = true ->
+  (r_byeaster r = None \/ 1583 <= y <= 4099) ->
+  2 <= y <= 9999 -> rebuild rl ii_init y month = Ok ii -> 0 <= i < year_len y ->
+  day_rejected rl ii i = Ok (negb (day_ok r (jan1 y + i))).
+Proof.
+  intros r rl y month ii i HN HW Hfr Hbm TN Hs He Hy HR Hi.
+  destruct (normalize_fields r rl HN) as (_ & _ & _ & _ & Nwn & Nea & Nwd).
+  pose proof (normalize_wkst r rl HN) as Nwk.
+  destruct (rebuild_char rl y month ii ltac:(lia) HR) as (F & Cnw & Cwn).
+  pose proof HW as HW'. unfold spec_wf in HW'.
+  repeat match type of HW' with _ && _ = true =>
+    let H := fresh "W" in apply andb_true_iff in HW'; destruct HW' as [HW' H] end.
+  apply (day_filter_core r rl ii y i HN HW F ltac:(lia) Hi).
+  - apply (weekday_nth_clause_yearly r rl y month ii i HN HW Hfr Hbm TN ltac:(lia) HR Hi).
+  - unfold cl_weekno. rewrite Nwn.
+    destruct (r_byweekno r) as [l|] eqn:EL; [|reflexivity].
+    assert (NE : ne_opt (Some l) = true) by assumption.
+    assert (TT : truthy (option_map sort_set (Some l)) = true).
+    { rewrite (truthy_map_sort (Some l) NE). reflexivity. }
+    rewrite TT. rewrite Nwn in Cwn. destruct (Cwn TT) as (m & Em & Eb). rewrite Em.
+    cbn [option_map opt_list] in Eb.
+    assert (SAFE : forallb RRWeekFinal.weekno_safe (sort_set l) = true).
+    { apply forallb_sort_set. exact Hs. }
+    assert (Hk : 0 <= wkst rl <= 6).
+    { rewrite Nwk. match goal with H : between 0 6 (r_wkst r) = true |- _ => unfold between in H end. lia. }
+    destruct (RRWeekTop.wnomask_correct_calendar y (wkst rl) (sort_set l) Hy Hk SAFE) as (m' & Em' & Lm & Pm).
+    cbv zeta in Em'. rewrite Eb in Em'. injection Em' as <-.
+    rewrite (py_nth_nth m i) by lia. cbn [bind].
+    assert (U : RRWeekDefs.used_index (shape_of y) (wkst rl) i = true).
+    { unfold RRWeekDefs.used_index. change (RRWeekDefs.sh_ylen (shape_of y)) with (year_len y).
+      apply andb_true_iff. split; [lia|]. apply orb_true_iff. left. lia. }
+    specialize (Pm i U). unfold RRWeekThm.nzb in Pm.
+    f_equal. cbn [in_opt].
+    rewrite <- (existsb_sort_set (weekno_lambda r (jan1 y + i)) l).
+    replace (nth (Z.to_nat i) m 0 =? 0) with (negb (negb (nth (Z.to_nat i) m 0 =? 0)))
+      by apply negb_involutive.
+    f_equal. rewrite Pm. rewrite Nwk. reflexivity.
+  - unfold cl_easter. rewrite Nea.
+    destruct (r_byeaster r) as [l|] eqn:EL; [|reflexivity].
+    destruct He as [He|He]; [discriminate He|].
+    assert (NE : nonempty l = true).
+    { match goal with H : ne_opt (Some l) = true |- _ => destruct l; [discriminate H|reflexivity] end. }
+    assert (TT : truthy (option_map sortZ (Some l)) = true).
+    { cbn [option_map truthy]. pose proof (sortZ_nonempty l) as SN. rewrite NE in SN.
+      destruct (sortZ l); [discriminate SN|reflexivity]. }
+    rewrite TT.
+    destruct (rebuild_easter rl y month ii ltac:(lia) HR ltac:(rewrite Nea; exact TT)) as (eo & m & Eo & Em & Eb).
+    rewrite Em. rewrite Nea in Eb. cbn [option_map opt_list] in Eb.
+    destruct (RREasterThm.eastermask_correct_own_year y (sortZ l) He) as (eo' & m' & Eo' & Eb' & Pm).
+    cbv zeta in Eb', Pm. fold (jan1 y) in Eb', Pm.
+    rewrite Eo in Eo'. injection Eo' as <-. rewrite Eb in Eb'. injection Eb' as <-.
+    assert (Lm : zlen m = year_len y + 7).
+    { destruct (RREasterThm.eastermask_fold_correct (eo - jan1 y) (year_len y) (sortZ l)
+                  ltac:(unfold year_len; destruct (is_leap y); lia)) as (m2 & E2 & L2 & _).
+      rewrite Eb in E2. injection E2 as <-. exact L2. }
+    rewrite (py_nth_nth m i) by lia. cbn [bind].
+    specialize (Pm i ltac:(lia)). unfold RRWeekThm.nzb in Pm.
+    f_equal. cbn [in_opt]. rewrite <- (existsb_sortZ (easter_lambda y (jan1 y + i)) l).
+    replace (nth (Z.to_nat i) m 0 =? 0) with (negb (negb (nth (Z.to_nat i) m 0 =? 0)))
+      by apply negb_involutive.
+    f_equal. rewrite Pm. reflexivity.
 Qed.
